@@ -690,13 +690,27 @@ func (in *Inst) escapes(x *ssa.Alloc) bool {
 					}
 				}
 			}
-			// and the closure itself must be deferred or called directly
+			// and the closure itself must be deferred or called directly - or spawned with `go`, provided it only
+			// reads the variable (a concurrent reader cannot change what this function sees)
 			for _, cr := range *u.Referrers() {
 				switch c := cr.(type) {
 				case *ssa.Defer:
 				case *ssa.Call:
 					if c.Call.Value != ssa.Value(u) {
 						return true
+					}
+				case *ssa.Go:
+					if c.Call.Value != ssa.Value(u) {
+						return true
+					}
+					for i, b := range u.Bindings {
+						if b == ssa.Value(x) {
+							for _, rr := range *fnv.FreeVars[i].Referrers() {
+								if _, isStore := rr.(*ssa.Store); isStore {
+									return true
+								}
+							}
+						}
 					}
 				case *ssa.DebugRef:
 				default:
